@@ -249,6 +249,7 @@ def run(chk):
         if n == len(d):
             full[d] = columns(o)
     SKIP = ('#1e', '#1d', '#67', '#68')
+    prevc, prevd = None, None
     for (d, n), a, o in zip(meta, sfl, so):
         c, ref = columns(o), full.get(d)
         if n > 14:
@@ -265,6 +266,18 @@ def run(chk):
                     break
             if why is None and ref.get('#67', [])[:len(c.get('#67', []))] != c.get('#67', []):
                 why = 'the layer stack of the cut capture is not a prefix of the complete one'
+        # ... and what a shorter capture reported, the longer one reports too (same value, or a longer list): the columns
+        # of a header that lies completely inside the capture do not depend on what follows it
+        if why is None and n > 0 and prevc is not None and prevd == d:
+            for k, v in prevc.items():
+                if k in ('#1e', '#1d'):
+                    continue
+                if k == '#68':
+                    v = v[:-1]      # the size of the header the shorter capture ended in may grow (an MPLS stack: 4 x labels present)
+                if c.get(k, [])[:len(v)] != v:
+                    why = 'column %s was %s at %d bytes and is %s at %d bytes' % (k, v, n - 1, c.get(k), n)
+                    break
+        prevc, prevd = c, d
         if why:
             chk.record('scopeA', dict(concrete=True, input=a, capture_length=n, frame=d.hex(), impl=o[:1500],
                        what='sFlow raw header captured at %d of %d bytes: %s (every reported field must equal the frame\'s true value or be left unset)' % (n, len(d), why)), {})
